@@ -1194,16 +1194,47 @@ class Segment:
             # built afresh for the sequential and for the interleaved execution
             return {"priv": self.bridge.build(sub["ref"], "td")} if sub["k"] == "A" else {}
 
+        if not hasattr(self, "lines_seen"):
+            self.lines_seen = set()
+
+        lane_steps = {}
+
         def sequential():
             got = []
-            for lane in lanes:
+            for li, lane in enumerate(lanes):
                 row = []
+                counter = [0]
                 for sub in lane:
                     slot = private(sub)
-                    self.conc_subop(sub, slot)
+                    sys.settrace(sched.line_recorder(pkg, self.lines_seen, counter))
+                    try:
+                        self.conc_subop(sub, slot)
+                    finally:
+                        sys.settrace(None)
                     row.append(self.conc_eval(sub, slot))
                 got.append(row)
+                lane_steps[li] = counter[0]
             return got
+
+        def interrupts():
+            """The plan's cancellations with fraction-placed ones resolved to a step number: a
+            fraction of the lane's own length when the sequential execution has measured it,
+            log-uniform up to 4000 steps otherwise."""
+            import math
+            specs = op.get("interrupt") or []
+            if isinstance(specs, dict):
+                specs = [specs]
+            out = []
+            for spec in specs:
+                spec = dict(spec)
+                if "frac" in spec:
+                    known = lane_steps.get(spec["lane"])
+                    if known:
+                        spec["after"] = max(1, int(spec["frac"] * known))
+                    else:
+                        spec["after"] = max(1, int(math.exp(spec["frac"] * math.log(4000.0))))
+                out.append(spec)
+            return out
 
         redo = {}        # lane -> raw results of its calls made again, in the same thread,
         #                  right after the lane's call was cancelled
@@ -1219,15 +1250,19 @@ class Segment:
                     except sched.SimInterrupt:
                         # the caller's worker thread survives the cancellation and serves the
                         # same requests again (thread-local leftovers would be met here)
-                        redo[idx] = [private(sub) for sub in lanes[idx]]
+                        # (GenerateRandomAttribute is retried on the caller's own model: what
+                        # the cancelled call already attached stays, the rest is added)
+                        redo[idx] = [{"priv": slot["priv"]} if sub["k"] == "A" else private(sub)
+                                     for sub, slot in zip(lanes[idx], slots[idx])]
                         for sub, slot in zip(lanes[idx], redo[idx]):
                             self.conc_subop(sub, slot)
                 return run
             core = os.path.dirname(sys.modules["flamapy.core"].__file__)
             sch = sched.Scheduler(pkg, op.get("switches", []), op.get("first", 0),
                                   transparent=[core] if not core.startswith(pkg) else [],
-                                  interrupt=op.get("interrupt"))
+                                  interrupt=interrupts(), seen=self.lines_seen)
             finished = sch.run([body(i) for i in range(len(lanes))])
+            sch.leaked = sched.recover_leaked_locks()
             got = [[self.conc_eval(sub, slot) for sub, slot in zip(lane, row)]
                    for lane, row in zip(lanes, slots)]
             return sch, finished, got
@@ -1300,7 +1335,10 @@ class Segment:
             self.probe("conc_library_lock_contended", sch.lock_yields)
         rec["sched"] = sha(rm.cj([list(x) for x in sch.log]))
         rec["switches"] = len(sch.log)
-        if not finished or sch.errors:
+        leaked = getattr(sch, "leaked", 0)
+        if leaked:
+            self.probe("conc_lock_left_held_after_cancellation", leaked)
+        if not finished or sch.errors or leaked:
             self.probe("conc_schedule_stalled")
             rec["outcome"] = "stalled"
             self.conc_stalled = True      # no further interleaved execution in this interpreter
@@ -1309,19 +1347,19 @@ class Segment:
             self.probe("conc_ops_with_interleaving")
         rec["outcome"] = "ok"
         shared = op.get("share", False)
-        cancelled = sch.interrupted[0] if sch.interrupted else None
-        if sch.interrupted:
-            self.probe("fault_fired.call_cancelled")
-            rec["cancelled_at"] = sch.interrupted[2]
+        cancelled = sch.cancelled
+        if cancelled:
+            self.probe("fault_fired.call_cancelled", len(cancelled))
+            rec["cancelled_at"] = ", ".join("lane %d at %s" % (k, cancelled[k])
+                                            for k in sorted(cancelled))
         pairs = []
         for li, lane in enumerate(lanes):
             for si, sub in enumerate(lane):
-                if li != cancelled:
+                if li not in cancelled:
                     pairs.append((li, si, sub, seq[li][si], conc[li][si], "interleaved"))
-                if again is not None and cancelled is not None:
+                if again is not None and cancelled:
                     pairs.append((li, si, sub, seq[li][si], again[li][si],
-                                  "after lane %d was cancelled at %s" % (cancelled,
-                                                                         sch.interrupted[2])))
+                                  "after a call was cancelled (%s)" % rec["cancelled_at"]))
         for li, si, sub, a, b, how in pairs:
             if True:
                 if a == b:
